@@ -1,7 +1,7 @@
 (** EmitProofs.v — lemmas about EmitDefs (C17).  Statements are re-exported by Properties_C17.v. *)
 From Coq Require Import String Ascii List Bool Arith Lia DecimalString DecimalNat Decimal DecimalFacts.
 From LC Require Import Common NumDefs AstDefs GenDefs EmitDefs.
-From LCGen Require Import AstTypes ProfileStrings.
+From LCGen Require Import AstTypes ProfileStrings ProfileMembers.
 Import ListNotations.
 Local Open Scope string_scope.
 Local Open Scope bool_scope.
@@ -1469,3 +1469,123 @@ Proof.
                 ltac:(intros q []) e p Hp ltac:(lia) Hn) as H.
   cbn [app] in H. apply in_map_iff in H as [[idx n] [E Hin]]. simpl in E. subst idx. exists n. exact Hin.
 Qed.
+
+(** * degenerate models: ODE type without states (every state handed to addExternalVariable)
+    The selectors of the generator test the model's TYPE (modelHasOdes(): generator.cpp addInterfaceCreateDeleteArrayMethodsCode,
+    addImplementationCreateStatesArrayMethodCode, addInterfaceComputeModelMethodsCode, addImplementationComputeRatesMethodCode,
+    addStateAndVariableCountCode, addImplementationVoiInfoCode, addImplementationStateInfoCode), never stateCount():
+    EmitDefs uses [has_odes m] in all those places and nothing below depends on [am_states m] being non-empty. *)
+Lemma declared_are_defined : forall m s, In s (declared_sigs profile_C m) -> In s (defined_sigs profile_C m).
+Proof.
+  intros m s H. apply (count_occ_In string_dec). rewrite (declared_defined_once m s H). lia.
+Qed.
+
+Lemma ode_frames_by_type : forall m, has_odes m = true ->
+  In "double * createStatesArray()" (declared_sigs profile_C m)
+  /\ In "double * createStatesArray()" (defined_sigs profile_C m)
+  /\ (exists s, In s (declared_sigs profile_C m) /\ In s (defined_sigs profile_C m) /\ sig_name s = "computeRates")
+  /\ In "def create_states_array():" (defined_sigs profile_Py m)
+  /\ In (if am_has_ext m then "def compute_rates(voi, states, rates, variables, external_variable):"
+         else "def compute_rates(voi, states, rates, variables):") (defined_sigs profile_Py m).
+Proof.
+  intros m H.
+  assert (D1 : In "double * createStatesArray()" (declared_sigs profile_C m))
+    by (rewrite declared_sigs_table, H; left; reflexivity).
+  split; [exact D1|]. split; [now apply declared_are_defined|]. split.
+  - rewrite declared_sigs_table, H. destruct (am_has_ext m) eqn:E.
+    + eexists. split; [do 5 right; left; reflexivity|]. split; [|reflexivity].
+      apply declared_are_defined. rewrite declared_sigs_table, H, E. do 5 right. left. reflexivity.
+    + eexists. split; [do 5 right; left; reflexivity|]. split; [|reflexivity].
+      apply declared_are_defined. rewrite declared_sigs_table, H, E. do 5 right. left. reflexivity.
+  - unfold defined_sigs, defined_templates. rewrite method_templates_split. rewrite !map_app, !in_app_iff.
+    split.
+    + right. left. rewrite H. left. reflexivity.
+    + do 5 right. unfold model_method_templates, fdm, wev. rewrite H. destruct (am_has_ext m); vm_compute; tauto.
+Qed.
+
+(* an empty method body: C keeps it empty, Python gets "    pass" — a Python frame is never left without a body *)
+Lemma method_body_python_nonempty : forall body, method_body_code profile_Py body <> "".
+Proof. intros body. unfold method_body_code. destruct body; [vm_compute; discriminate | simpl; discriminate]. Qed.
+
+Lemma method_body_empty : method_body_code profile_C "" = "" /\ method_body_code profile_Py "" = "    pass" ++ nl.
+Proof. split; reflexivity. Qed.
+
+(* an ODE-typed model all of whose states are external: STATE_COUNT = 0, empty STATE_INFO, and still every ODE frame *)
+Definition ex_zero_states : amodel :=
+  mkAmodel MOde (Some (mkAvar 0 VVoi "t" "second" "main")) []
+    [mkAvar 0 VConstant "k" "dimensionless" "main"; mkAvar 1 VExternal "x" "dimensionless" "main"]
+    true [mkAeq EExternal 0 [] [(VExternal, 1)] Null] [].
+
+Lemma zero_states_example :
+  is_valid ex_zero_states = true /\ has_odes ex_zero_states = true /\ am_states ex_zero_states = []
+  /\ state_and_variable_count_code profile_C ex_zero_states false
+     = "const size_t STATE_COUNT = 0;" ++ nl ++ "const size_t VARIABLE_COUNT = 2;" ++ nl
+  /\ length (declared_sigs profile_C ex_zero_states) = 7
+  /\ map sig_name (defined_sigs profile_Py ex_zero_states)
+     = ["create_states_array"; "create_variables_array"; "initialise_variables"; "compute_computed_constants"; "compute_rates"; "compute_variables"]
+  /\ add_implementation_state_info profile_C ex_zero_states "" = "const VariableInfo STATE_INFO[] = {" ++ nl ++ nl ++ "};" ++ nl.
+Proof. repeat split; vm_compute; reflexivity. Qed.
+
+(** * the profile object: setProfile() erases the history of every member that loadProfile assigns *)
+Section ProfileObjectProofs.
+  Variable value : Type.
+  Variable builtin : pkind -> string -> value.
+
+  Lemma set_profile_resets_assigned : forall k h h' st st' n, In n assigned_members ->
+    set_profile value builtin k (apply_history value h st) n = set_profile value builtin k (apply_history value h' st') n.
+  Proof.
+    intros k h h' st st' n Hn. unfold set_profile, load_profile.
+    assert (E : existsb (String.eqb n) assigned_members = true).
+    { apply existsb_exists. exists n. split; [assumption | apply String.eqb_refl]. }
+    rewrite E. reflexivity.
+  Qed.
+
+  Lemma set_profile_is_builtin : forall k st n, In n assigned_members -> set_profile value builtin k st n = builtin k n.
+  Proof.
+    intros k st n Hn. unfold set_profile, load_profile.
+    assert (E : existsb (String.eqb n) assigned_members = true).
+    { apply existsb_exists. exists n. split; [assumption | apply String.eqb_refl]. }
+    now rewrite E.
+  Qed.
+
+  (* every data member of the struct is assigned by loadProfile, or is one of the (at most two) known exceptions *)
+  Lemma struct_members_covered : forall n, In n struct_members -> In n assigned_members \/ In n unassigned_members.
+  Proof.
+    assert (E : forallb (fun n => existsb (String.eqb n) assigned_members || existsb (String.eqb n) unassigned_members) struct_members = true)
+      by (vm_compute; reflexivity).
+    intros n Hn. rewrite forallb_forall in E. specialize (E n Hn). apply orb_true_iff in E as [E | E];
+      apply existsb_exists in E as [x [Hx Ex]]; apply String.eqb_eq in Ex; subst; auto.
+  Qed.
+
+  Lemma unassigned_members_known : incl unassigned_members known_unassigned_members.
+  Proof.
+    assert (E : forallb (fun n => existsb (String.eqb n) known_unassigned_members) unassigned_members = true) by (vm_compute; reflexivity).
+    intros n Hn. rewrite forallb_forall in E. specialize (E n Hn). apply existsb_exists in E as [x [Hx Ex]].
+    apply String.eqb_eq in Ex. now subst.
+  Qed.
+
+  (* the claim at full strength holds as soon as loadProfile leaves no member out (the state after
+     fixes/C17-setprofile-piecewise-strings.diff) *)
+  Lemma set_profile_resets_all_members_partial : unassigned_members = [] ->
+    forall k h h' st st' n, In n struct_members ->
+    set_profile value builtin k (apply_history value h st) n = set_profile value builtin k (apply_history value h' st') n.
+  Proof.
+    intros U k h h' st st' n Hn. destruct (struct_members_covered n Hn) as [A | A].
+    - now apply set_profile_resets_assigned.
+    - rewrite U in A. contradiction.
+  Qed.
+
+  (* and it is refuted for every member that loadProfile leaves out: the history shows through setProfile *)
+  Lemma set_profile_refuted_when_unassigned : forall n, In n unassigned_members -> forall (v w : value), v <> w ->
+    forall k st, In n struct_members /\
+      set_profile value builtin k (apply_history value [(n, v)] st) n <> set_profile value builtin k (apply_history value [(n, w)] st) n.
+  Proof.
+    intros n Hn v w Hvw k st.
+    assert (S : forallb (fun n => existsb (String.eqb n) struct_members && negb (existsb (String.eqb n) assigned_members)) unassigned_members = true)
+      by (vm_compute; reflexivity).
+    rewrite forallb_forall in S. specialize (S n Hn). apply andb_true_iff in S as [S1 S2]. apply negb_true_iff in S2.
+    split.
+    - apply existsb_exists in S1 as [x [Hx Ex]]. apply String.eqb_eq in Ex. now subst.
+    - unfold set_profile, load_profile, apply_history, set_member. cbn [fold_left fst snd]. rewrite S2, String.eqb_refl. exact Hvw.
+  Qed.
+End ProfileObjectProofs.
